@@ -102,14 +102,14 @@ Definition last_is (c : ascii) (s : str) : bool :=
 
 Definition not_nl (c : ascii) : bool := negb (Ascii.eqb c ch_nl).
 
-(* re.match(r'\[.*\]', s): '[' first, then a ']' before the first newline *)
+(* re.match of '[' any-chars ']' : '[' first, then a ']' before the first newline *)
 Definition re_header (s : str) : bool :=
   match s with
   | c :: r => Ascii.eqb c "[" && mem "]" (takewhile not_nl r)
   | [] => false
   end.
 
-(* re.findall(r'\[(.*)\]', s)[0]: leftmost '[' that has a ']' on the same line; group up to the last such ']' *)
+(* re.findall with the pattern '[' group(any chars) ']', first match: leftmost '[' that has a ']' on the same line; group up to the last such ']' *)
 Fixpoint re_group (s : str) : res str :=
   match s with
   | [] => Err EIndex
